@@ -129,12 +129,12 @@ class Run:
                 if line.startswith("start"):
                     args = line.split()[1:]
                     if "--leader" in args:
-                        self.log({"e": "proc", "m": {"t": "start", "mode": "leader"}})
+                        self.log({"e": "proc", "m": {"t": "start", "mode": "leader", "to": ""}})
                     elif "--follower" in args:
                         addr = args[args.index("--leader-address") + 1] if "--leader-address" in args else "?"
                         self.log({"e": "proc", "m": {"t": "start", "mode": "follower", "to": self.sync_rev.get(addr, addr)}})
                     else:
-                        self.log({"e": "proc", "m": {"t": "start", "mode": "other:" + " ".join(args)}})
+                        self.log({"e": "proc", "m": {"t": "start", "mode": "other:" + " ".join(args), "to": ""}})
                 elif line.startswith("stop"):
                     self.log({"e": "proc", "m": {"t": "stop"}})
         return bool(r) or bool(chunk)
